@@ -2,6 +2,7 @@
 """Verify the changes a sub-agent left in /tmp/wt_<prop>/SEED and import the confirmed ones into /verif/seeded/.
 
   selftest/import_seed.py C05 [C04 ...]
+  SEED_WT_PREFIX=/tmp/wt2_ SEED_OFFSET=3 selftest/import_seed.py C05      (second round: stored as C05-4 .. C05-6)
 
 For every patch<k>.diff: apply it in the scratch worktree, run the pinned test suite, run demo<k>.py with and without
 the change, revert.  A change is kept only if the suite passes with it, the demo exits 0 without it and non-zero with it.
@@ -25,7 +26,7 @@ def sh(cmd, cwd, env=None, timeout=1200):
 
 def main():
     for prop in sys.argv[1:]:
-        wt = f"/tmp/wt_{prop}"
+        wt = os.environ.get("SEED_WT_PREFIX", "/tmp/wt_") + prop
         seed = os.path.join(wt, "SEED")
         if not os.path.isdir(seed):
             print(prop, "no SEED dir")
@@ -57,7 +58,7 @@ def main():
             ok = tests_ok and rc0 == 0 and rc1 != 0
             print(prop, k, "KEEP" if ok else "DROP", f"tests='{outt.strip()[-40:]}' demo_unchanged={rc0} demo_changed={rc1}")
             if ok:
-                dst = os.path.join(VERIF, "seeded", f"{prop}-{k}")
+                dst = os.path.join(VERIF, "seeded", f"{prop}-{k + int(os.environ.get('SEED_OFFSET', '0'))}")
                 os.makedirs(dst, exist_ok=True)
                 shutil.copy(patch, os.path.join(dst, "patch.diff"))
                 shutil.copy(demo, os.path.join(dst, "demo.py"))
